@@ -3,6 +3,7 @@
 Every model has the signature  model(I, state, frame, bi, term, args, span) -> [(ret AV, state)].
 `args` are the evaluated argument AVs.  Models never execute anything; they describe the
 effect of a std / petgraph function on abstract values and record facts."""
+import os
 from domain import (DEAD, TOP, BOOL, BOOL_TOP, TRUE, FALSE, fin, boolean, adt, ref, key, string, join, av_get, av_set,
                     adt_variants, strip_links)
 
@@ -394,6 +395,26 @@ def m_res_unwrap(I, state, frame, bi, t, args, span):
     return [(TOP, state)]
 
 
+@model("<std::collections::HashMap<K, V, S, A> as std::ops::Index<&Q>>::index", "std::ops::Index::index@HashMap",
+       "<std::collections::BTreeMap<K, V, A> as std::ops::Index<&Q>>::index")
+def m_map_index(I, state, frame, bi, t, args, span):
+    """map[key]: get(key).expect(..) - panics when the key is absent"""
+    res = MODELS["std::collections::HashMap::<K, V, S, A>::get"](I, state, frame, bi, t, args, span)
+    out = []
+    possible = False
+    for (rv, st) in res:
+        if rv[0] == "adt" and rv[1] == OPTION:
+            vs = adt_variants(rv)
+            possible = possible or 0 in vs
+            if 1 in vs:
+                out.append((vs[1][0], st))
+        else:
+            possible = True
+            out.append((TOP, st))
+    record_panic(I, state, frame, bi, span, "unwrap_index", detail=("HashMap index", None), possible=possible)
+    return out
+
+
 def variant_test(I, state, args, true_variants, false_variants):
     a = args[0]
     if a[0] == "ref":
@@ -622,11 +643,32 @@ def coll_add(I, state, a, elem, k=None, ne=False):
     if cur[0] == "coll":
         elem = with_state_constraint(I, state, elem)
         e2 = anonymise(elem)
-        tags = cur[3]
+        tags = frozenset(x for x in cur[3] if not (isinstance(x, tuple) and x and x[0] == "total"))
         if is_hist_copy(k, elem):
             # the explicit-loop form of clone().drain().filter().collect(): a pair of the input history copied unchanged
             tags = tags | frozenset(["history_filtered", "history_copy"])
         new = ("coll", join(cur[1], e2), join(cur[2], k) if k is not None else cur[2], tags | (frozenset(["ne"]) if ne else frozenset()))
+        root_av = I.load_root(state, a[1])
+        I.store_root(state, a[1], av_set(root_av, a[2], new, I.uni) if a[2] else new)
+
+
+def total_tmpl(v):
+    """the iterator template a local collection was collected from without any filter (and not changed since): iterating the
+    collection enumerates exactly what iterating the source would"""
+    if v is not None and v[0] == "coll":
+        for x in v[3]:
+            if isinstance(x, tuple) and x and x[0] == "total":
+                return x[1]
+    return None
+
+
+def coll_changed(I, state, a):
+    """an element may have been taken out of / put into the collection behind reference a: it no longer mirrors its source"""
+    if a[0] != "ref":
+        return
+    cur = av_get(I.load_root(state, a[1]), a[2], I.uni)
+    if cur is not None and cur[0] == "coll" and total_tmpl(cur) is not None:
+        new = ("coll", cur[1], cur[2], frozenset(x for x in cur[3] if not (isinstance(x, tuple) and x and x[0] == "total")))
         root_av = I.load_root(state, a[1])
         I.store_root(state, a[1], av_set(root_av, a[2], new, I.uni) if a[2] else new)
 
@@ -925,6 +967,9 @@ def m_vec_pop(I, state, frame, bi, t, args, span):
         if v[1] is not None:
             st0 = state.copy()
             a = args[0]
+            if removing:
+                coll_changed(I, st0, a)
+                v = deref(I, st0, a)
             if removing and "ne" in v[3] and a[0] == "ref":
                 # after taking one element out nothing is known about emptiness any more
                 cur = I.load_root(st0, a[1])
@@ -974,6 +1019,7 @@ def m_len(I, state, frame, bi, t, args, span):
 @model("std::vec::Vec::<T, A>::retain")
 def m_retain(I, state, frame, bi, t, args, span):
     v = deref(I, state, args[0])
+    coll_changed(I, state, args[0])
     st = state
     if v[0] == "coll" and v[1] is not None:
         root = ("retelem", frame.fid, bi)
@@ -986,7 +1032,17 @@ def m_retain(I, state, frame, bi, t, args, span):
             out = join_state(out, s2)
         if out is not None:
             st = out
-    I.rec.put("retain", I.sitekey(frame, bi, -1), dict(fn=frame.body.name, bb=bi, span=span, stack=frame.stack))
+    # the jobs the predicate mentions (captured by the closure): what the selective removal is about
+    keys = set()
+    c = deref(I, state, args[1]) if args[1][0] == "ref" else args[1]
+    if c[0] == "adt":
+        for fs in adt_variants(c).values():
+            for f in fs:
+                fv = deref(I, state, f) if f[0] == "ref" else f
+                if fv[0] == "key" and fv[1] is not None:
+                    keys.add(fv[1])
+    I.rec.put("retain", I.sitekey(frame, bi, -1), dict(fn=frame.body.name, bb=bi, span=span, stack=frame.stack, keys=frozenset(keys),
+                                                       elem=v[1] if v[0] == "coll" else None))
     return [(TOP, st)]
 
 
@@ -994,6 +1050,7 @@ def m_retain(I, state, frame, bi, t, args, span):
 def m_vec_remove(I, state, frame, bi, t, args, span):
     """selective removal of one element: the explicit-loop form of retain"""
     v = deref(I, state, args[0])
+    coll_changed(I, state, args[0])
     I.rec.put("retain", I.sitekey(frame, bi, -1), dict(fn=frame.body.name, bb=bi, span=span, stack=frame.stack, form="remove"))
     if v[0] == "coll" and v[1] is not None:
         return instantiate(I, state, frame, bi, ("av", v[1]), span)
@@ -1018,6 +1075,10 @@ def index_common(I, state, frame, bi, t, args, span):
         cons = i[3] if i[0] == "key" else None
         kav = bind_key(I, state, sym, roles, cons)
         return [(ref(("job", sym, kav[2], kav[3]), ()), state)]
+    dty = frame.body.locals[t["dest"]["l"]]["s"] if not t["dest"]["p"] else ""
+    if dty in ("&mut bool", "&bool") and i[0] == "key" and i[1] is not None and a[0] == "ref" and a[1][0] == "local":
+        # a local table of flags indexed by job (`seen[job]`): a store through the returned reference is a per-job mark
+        return [(ref(("marktable", a[1][1:], i[1]), ()), state)]
     v = deref(I, state, a)
     if v[0] == "coll":
         e = v[1]
@@ -1037,13 +1098,14 @@ MODELS["<std::vec::Vec<T, A> as std::ops::IndexMut<I>>::index_mut"] = index_comm
 def m_slice_iter(I, state, frame, bi, t, args, span):
     a = args[0]
     L = I.layout
+    ne = (lambda tm: ("fresh", tm)) if getattr(I.cfg, "nonempty_jobs", False) else (lambda tm: tm)   # case 'there is at least one job'
     if is_self_field(I, a, L.jobs_field):
-        return [(("iter", ("jobs",)), state)]
+        return [(("iter", ne(("jobs",))), state)]
     if is_self_field(I, a, L.topo_field) or (a[0] == "ref" and a[1] == ("self",) and a[2][:1] == (("f", L.topo_field),)):
-        return [(("iter", ("av", key(None, ["topo", "alljobs"]))), state)]
+        return [(("iter", ne(("av", key(None, ["topo", "alljobs"])))), state)]
     v = deref(I, state, a)
     if v[0] == "coll":
-        return [(("iter", ("av", v[1])), state)]
+        return [(("iter", total_tmpl(v) or ("av", v[1])), state)]
     ty = I.operand_ty(frame, t["args"][0])
     if ty is not None and "ref" in ty and ty["ref"]["s"] in ("[usize]", "std::vec::Vec<usize>"):
         return [(("iter", ("av", key(None, ["usizevec"]))), state)]
@@ -1060,13 +1122,14 @@ def m_into_iter(I, state, frame, bi, t, args, span):
     if v[0] == "coll":
         if v[2] is not None:
             return [(("iter", ("pairs", v[2], v[1], v[3])), state)]
-        return [(("iter", ("av", v[1])), state)]
+        return [(("iter", total_tmpl(v) or ("av", v[1])), state)]
     if v[0] == "adt" and v[1] in ("std::ops::Range", "core::ops::Range"):
         fs = adt_variants(v)[0]
         tag = "alljobs" if (len(fs) > 1 and fs[1][0] == "int" and len(fs[1]) > 2 and fs[1][2] == "jobs_len") else "range"
-        return [(("iter", ("av", key(None, [tag]))), state)]
+        tm = ("av", key(None, [tag]))
+        return [(("iter", ("fresh", tm) if (tag == "alljobs" and getattr(I.cfg, "nonempty_jobs", False)) else tm), state)]
     if a[0] == "ref" and is_self_field(I, a, I.layout.jobs_field):
-        return [(("iter", ("jobs",)), state)]
+        return [(("iter", ("fresh", ("jobs",)) if getattr(I.cfg, "nonempty_jobs", False) else ("jobs",)), state)]
     return [(("iter", ("av", TOP)), state)]
 
 
@@ -1199,6 +1262,8 @@ def instantiate(I, state, frame, bi, tmpl, span, anonymous=False, tag=""):
                             merged = join_state(merged, s2)
                         if may_true:
                             keep.add(c)
+                    if keep != set(cur[2]):
+                        I.filter_may_drop = True
                     if not keep or merged is None:
                         continue
                     cons = fin(L.jobstate, keep)
@@ -1220,6 +1285,8 @@ def instantiate(I, state, frame, bi, tmpl, span, anonymous=False, tag=""):
                 else:
                     mt = mf = True
                 out.append((anonymise(e) if anonymous else e, s2))
+            if mf:
+                I.filter_may_drop = True
             I.rec.put("filter_result", I.sitekey(frame, bi, -1, hash(tag) % 1000),
                       dict(fn=frame.body.name, bb=bi, span=span, may_true=mt, may_false=mf, stack=frame.stack))
         return out
@@ -1265,6 +1332,32 @@ def tmpl_stepped(tm):
     return tm
 
 
+def tmpl_fresh_filtered(tm):
+    """a non-empty, unstepped source below at least one filter (and cardinality-preserving adaptors)"""
+    seen_filter = False
+    while isinstance(tm, tuple) and tm:
+        if tm[0] == "fresh":
+            return seen_filter
+        if tm[0] == "filter" and len(tm) > 1:
+            seen_filter = True
+            tm = tm[1]
+            continue
+        if tm[0] in ("map", "enum") and len(tm) > 1:
+            tm = tm[1]
+            continue
+        return False
+    return False
+
+
+def tmpl_stepped_deep(tm):
+    if isinstance(tm, tuple) and tm:
+        if tm[0] == "fresh":
+            return tm[1]
+        if tm[0] in ("map", "enum", "filter") and len(tm) > 1:
+            return (tm[0], tmpl_stepped_deep(tm[1])) + tuple(tm[2:])
+    return tm
+
+
 def rebind(I, state, frame, bi, e, anonymous, tag=""):
     """an element taken out of a collection: anonymous keys get a fresh identity"""
     if e[0] == "key" and e[1] is None:
@@ -1303,6 +1396,18 @@ def next_common(I, state, frame, bi, t, args, span):
         for (e, st) in instantiate(I, st0, frame, bi, stepped[1], span):
             res.append((some(e), st))
         return res
+    if it[0] == "iter" and it[1] and tmpl_fresh_filtered(it[1]) and a[0] == "ref" and a[1][0] == "local":
+        # first step of a filter over a source known to be non-empty: if the predicate cannot reject any element the source can
+        # yield (in this partition), the step yields
+        st0 = state.copy()
+        cur = I.load_root(st0, a[1])
+        stepped = ("iter", tmpl_stepped_deep(it[1]))
+        I.store_root(st0, a[1], av_set(cur, a[2], stepped, I.uni) if a[2] else stepped)
+        I.filter_may_drop = False
+        yielded = [(some(e), st) for (e, st) in instantiate(I, st0, frame, bi, stepped[1], span)]
+        if yielded and not I.filter_may_drop:
+            return yielded
+        return res + yielded
     if it[0] == "iter":
         for (e, st) in instantiate(I, state.copy(), frame, bi, it[1], span):
             res.append((some(e), st))
@@ -1332,6 +1437,14 @@ def m_collect(I, state, frame, bi, t, args, span):
         x = x[1]
     if tmpl[0] == "pairs":
         tags |= set(tmpl[3])
+    # an unfiltered collection of a job's neighbours mirrors the neighbourhood: a later loop over it is the for-all-neighbours loop
+    x = tmpl
+    unfiltered = True
+    while isinstance(x, tuple) and x and x[0] in ("filter", "map", "filter_map", "enum", "fresh"):
+        unfiltered = unfiltered and x[0] in ("enum", "fresh")
+        x = x[1]
+    if unfiltered and isinstance(x, tuple) and x and x[0] in ("nbr", "nbredges") and not os.environ.get("NO_TOTAL"):
+        tags.add(("total", tmpl))
     elem = None
     kk = None
     st0 = state.copy()
@@ -1605,6 +1718,8 @@ def each_element(I, state, frame, bi, it, span):
     if it[0] == "iter":
         return instantiate(I, state.copy(), frame, bi, it[1], span)
     if it[0] == "coll":
+        if total_tmpl(it) is not None:
+            return instantiate(I, state.copy(), frame, bi, total_tmpl(it), span)
         return instantiate(I, state.copy(), frame, bi, ("av", it[1]), span) if it[1] is not None else []
     return [(TOP, state.copy())]
 
@@ -1982,6 +2097,34 @@ def m_take(I, state, frame, bi, t, args, span):
             I.store_root(state, a[1], av_set(root_av, a[2], new, I.uni) if a[2] else new)
         return [(cur if cur is not None else TOP, state)]
     return [(TOP, state)]
+
+
+@model("std::option::Option::<T>::insert", "std::option::Option::<T>::replace")
+def m_option_insert(I, state, frame, bi, t, args, span):
+    """`place.insert(v)` / `place.replace(v)`: the assignment `place = Some(v)` (plus a reference to v / the old value)"""
+    from mir import callee_of
+    a = args[0]
+    v = args[1] if len(args) > 1 else TOP
+    new = adt(OPTION, {1: (v,)})
+    is_replace = callee_of(t)[0].endswith("::replace")
+    if a[0] != "ref":
+        return [(TOP, state)]
+    root, proj = a[1], a[2]
+    cur = av_get(I.load_root(state, root), proj, I.uni)
+    if root[0] == "job":
+        I.record_job_store(state, frame, root, None, new, bi, -1, span, None, proj)
+    elif root == ("self",) or root[0] in ("edge", "anyjob", "obj"):
+        I.rec.note("imprecise", "Option::insert/replace on engine state in %s" % frame.body.name)
+        I.havoc_jobs(state)
+        return [(TOP, state)]
+    old_root = I.load_root(state, root)
+    I.store_root(state, root, av_set(old_root, proj, new, I.uni) if proj else new)
+    I.drop_links(state, root[0] if root[0] != "local" else "local", root)
+    if is_replace:
+        return [(cur if cur is not None else TOP, state)]
+    tmp = ("tmpopt", frame.fid, bi)
+    state.heap[tmp] = v
+    return [(ref(tmp, ()), state)]
 
 
 @model("<std::option::Option<T> as std::ops::Try>::branch")
